@@ -4,96 +4,63 @@
 use super::super::*;
 use crate::lex::verif_kani::common::is_suffix_at;
 
-/// A text of constant length: K symbolic characters drawn from `alphabet` (ASCII), with
-/// one `é` (2 bytes) inserted in front of character number P when P <= K (P > K: no
-/// `é`).  The byte length (K or K + 2) is a constant of the obligation; with a symbolic
-/// length (`é` anywhere) the K = 4 raw-string obligation did not finish in 400 s.
-fn text<const K: usize, const P: usize>(alphabet: [u8; 3]) -> ([u8; 12], usize) {
-    let mut buf = [0u8; 12];
-    let mut n = 0;
-    let mut i = 0;
-    while i <= K {
-        if i == P {
-            buf[n] = 0xc3;
-            buf[n + 1] = 0xa9;
-            n += 2;
-        }
-        if i < K {
-            buf[n] = alphabet[(kani::any::<u8>() % 3) as usize];
-            n += 1;
-        }
-        i += 1;
-    }
-    (buf, n)
-}
+// Draft removed: `raw_total::<K, P>` (every text of K symbolic characters over {#, ", a}
+// with one e-acute at position P; partition + first-closing-sequence postcondition) gave
+// no result in 300-400 s for K = 3 (1 M symex steps, 19 M clauses).  Concrete literals:
 
-/// Every such text over {#, ", a} (+ é): no panic; if accepted with h
-/// hashes: input == #^h " body " #^h rest.
-fn raw_total<const K: usize, const P: usize>() {
-    let (buf, n) = text::<K, P>([b'#', b'"', b'a']);
-    let input = unsafe { std::str::from_utf8_unchecked(&buf[..n]) };
+/// Expected result of the raw-string lexer on a literal (text after the `r`):
+/// Some((hashes, body start, body length, bytes consumed)) or None for an error.
+fn raw_case(input: &'static str, want: Option<(u8, usize, usize, usize)>) {
     match lex_raw_string_as_str(input) {
         Ok(((body, h), rest)) => {
-            let h = h as usize;
-            let mut i = 0;
-            while i < h {
-                assert!(buf[i] == b'#');
-                i += 1;
-            }
-            assert!(buf[h] == b'"', "opening quote after the hashes");
-            assert!(std::ptr::eq(body.as_ptr(), unsafe { input.as_ptr().add(h + 1) }), "the body starts after the opening quote");
-            let end = h + 1 + body.len();
-            assert!(buf[end] == b'"', "closing quote after the body");
-            let mut i = 0;
-            while i < h {
-                assert!(buf[end + 1 + i] == b'#', "as many closing hashes as opening ones");
-                i += 1;
-            }
-            assert!(is_suffix_at(input, rest, end + 1 + h), "exactly the literal is consumed");
-            // the body holds no closing sequence (quote followed by h hashes)
-            let mut j = 0;
-            while j < body.len() {
-                if buf[h + 1 + j] == b'"' {
-                    let mut hashes = 0;
-                    while hashes < h && h + 2 + j + hashes < end && buf[h + 2 + j + hashes] == b'#' {
-                        hashes += 1;
-                    }
-                    assert!(hashes < h, "the literal ends at the FIRST closing sequence");
+            let ok = match want {
+                Some((wh, start, len, consumed)) => {
+                    h == wh
+                        && std::ptr::eq(body.as_ptr(), unsafe { input.as_ptr().add(start) })
+                        && body.len() == len
+                        && is_suffix_at(input, rest, consumed)
                 }
-                j += 1;
-            }
-            kani::cover!(h == 1 || K < 4, "one hash (needs 4 characters)");
-            kani::cover!(h == 0 && rest.len() > 0, "something left after the literal");
+                None => false,
+            };
+            assert!(ok, "raw string: #^h, quote, body, quote, #^h is consumed, nothing else");
         }
         Err((kind, at)) => {
+            assert!(want.is_none(), "a well-formed raw string is accepted");
             let lo = input.as_ptr() as usize;
             let a = at.as_ptr() as usize;
-            assert!(lo <= a && a + at.len() <= lo + n, "the error span lies inside the input");
-            assert!(input.is_char_boundary(a - lo), "the error span starts on a character boundary");
-            kani::cover!(matches!(&kind, LexErrorKind::MissingEndingQuote), "no closing sequence");
+            assert!(lo <= a && a + at.len() <= lo + input.len(), "the error span lies inside the input");
+            assert!(input.is_char_boundary(a - lo) && input.is_char_boundary(a - lo + at.len()), "the error span is on character boundaries");
             std::mem::forget(kind);
         }
     }
 }
 
-macro_rules! raw_case {
-    ($name:ident, $k:literal, $p:literal) => {
-        #[kani::proof]
-        #[kani::unwind(10)]
-        fn $name() {
-            raw_total::<$k, $p>()
-        }
-    };
+/// Well-formed raw strings, with multi-byte bodies, stray quotes / hashes in the body,
+/// more closing hashes than opening ones (the surplus is left).
+#[kani::proof]
+#[kani::unwind(14)]
+fn lex_raw_string__accepted_literals() {
+    raw_case("\"a\"", Some((0, 1, 1, 3)));
+    raw_case("\"\u{e9}\"x", Some((0, 1, 2, 4)));
+    raw_case("#\"\u{e9}\"#", Some((1, 2, 2, 6)));
+    raw_case("#\"a\"##", Some((1, 2, 1, 5)));
+    raw_case("##\"a\"#\"##;", Some((2, 3, 3, 9)));
+    kani::cover!(true, "list completed");
 }
 
-raw_case!(lex_raw_string__total_and_partition_ascii3, 3, 9);
-raw_case!(lex_raw_string__total_and_partition_ascii4, 4, 9);
-raw_case!(lex_raw_string__total_and_partition_ascii5, 5, 9);
-// one `é` at each position of a 3-character text
-raw_case!(lex_raw_string__total_and_partition_e_at0, 3, 0);
-raw_case!(lex_raw_string__total_and_partition_e_at1, 3, 1);
-raw_case!(lex_raw_string__total_and_partition_e_at2, 3, 2);
-raw_case!(lex_raw_string__total_and_partition_e_at3, 3, 3);
+/// Malformed ones: no quote, unterminated, too few closing hashes, multi-byte character
+/// where the quote should be.
+#[kani::proof]
+#[kani::unwind(14)]
+fn lex_raw_string__rejected_literals() {
+    raw_case("", None);
+    raw_case("#", None);
+    raw_case("\u{e9}\"", None);
+    raw_case("#\u{e9}\"#", None);
+    raw_case("\"\u{e9}", None);
+    raw_case("##\"\u{e9}\"#", None);
+    kani::cover!(true, "list completed");
+}
 
 // ---------------------------------------------------------------------------
 // quoted strings: error spans around multi-byte characters
@@ -163,46 +130,44 @@ fn lex_quoted_string__invalid_escape_of_3_and_4_byte_chars() {
     }
 }
 
-/// Every text (see `text`) over {\\, ", a} (+ é): no panic; what is accepted is a prefix
-/// of the input ending after a quote; every error span is a sub-slice of the input on
-/// character boundaries.
-fn quoted_total<const K: usize, const P: usize>() {
-    let (buf, n) = text::<K, P>([b'\\', b'"', b'a']);
-    let input = unsafe { std::str::from_utf8_unchecked(&buf[..n]) };
+// Draft removed: `quoted_total::<K, P>` (every text of K symbolic characters over
+// {backslash, quote, a} with one e-acute at position P) gave no result in 300 s for K = 2.
+
+/// More literals around escapes and multi-byte characters (text after the opening quote).
+fn quoted_err_case(input: &'static str, at: usize, len: usize) {
     match lex_quoted_string_as_vec(input) {
-        Ok((vec, rest)) => {
-            let at = n - rest.len();
-            assert!(is_suffix_at(input, rest, at) && at >= 1 && buf[at - 1] == b'"', "consumed up to and including a quote");
-            kani::cover!(true, "accepted");
-            std::mem::forget(vec);
+        Ok(x) => {
+            std::mem::forget(x);
+            assert!(false, "malformed string accepted");
         }
         Err((kind, span)) => {
-            let lo = input.as_ptr() as usize;
-            let a = span.as_ptr() as usize;
-            assert!(lo <= a && a + span.len() <= lo + n, "the error span lies inside the input");
-            let at = a - lo;
-            assert!(at == n || buf[at] & 0xc0 != 0x80, "the span starts on a character boundary");
-            let end = at + span.len();
-            assert!(end == n || buf[end] & 0xc0 != 0x80, "the span ends on a character boundary");
-            kani::cover!(matches!(&kind, LexErrorKind::MissingEndingQuote), "no closing quote");
+            assert!(is_char_aligned_subslice(input, span, at, len), "the error span is the expected sub-slice, on character boundaries");
             std::mem::forget(kind);
         }
     }
 }
 
-macro_rules! quoted_case {
-    ($name:ident, $k:literal, $p:literal) => {
+macro_rules! quoted_err_harness {
+    ($name:ident, $input:literal, $at:literal, $len:literal) => {
         #[kani::proof]
         #[kani::unwind(10)]
         #[kani::stub(std::mem::drop, crate::ast::field_expr::verif_kani::common::mem_drop__leak)]
         fn $name() {
-            quoted_total::<$k, $p>()
+            quoted_err_case($input, $at, $len);
+            kani::cover!(true, "case completed");
         }
     };
 }
 
-quoted_case!(lex_quoted_string__total_and_spans_ascii2, 2, 9);
-quoted_case!(lex_quoted_string__total_and_spans_ascii3, 3, 9);
-quoted_case!(lex_quoted_string__total_and_spans_e_at0, 2, 0);
-quoted_case!(lex_quoted_string__total_and_spans_e_at1, 2, 1);
-quoted_case!(lex_quoted_string__total_and_spans_e_at2, 2, 2);
+// One case per obligation (five in one did not finish in 300 s).  The error span never
+// splits a character:
+// \x + e-acute + 1: two CHARACTERS are taken as the digits, span = both (3 bytes)
+quoted_err_harness!(lex_quoted_string__hex_escape_followed_by_multibyte_char, "\\x\u{e9}1\"", 2, 3);
+// \0 + e-acute + 7: three characters from the 0 (4 bytes)
+quoted_err_harness!(lex_quoted_string__octal_escape_followed_by_multibyte_char, "\\0\u{e9}7\"", 1, 4);
+// \x cut short by the end of the input: located at what is left
+quoted_err_harness!(lex_quoted_string__hex_escape_cut_by_end_of_input, "\\x4", 2, 1);
+// no closing quote after a multi-byte character: the whole text
+quoted_err_harness!(lex_quoted_string__no_closing_quote_after_multibyte_char, "a\u{e9}", 0, 3);
+// backslash at the very end
+quoted_err_harness!(lex_quoted_string__backslash_at_end_after_multibyte_char, "\u{e9}\\", 0, 3);
